@@ -215,7 +215,15 @@ class SolverTap:
             x = np.ravel(np.array(inc, dtype=float))
             if np.all(np.isfinite(x)) and x.shape == b_in.shape:
                 r = np.ravel(np.array(A * _m(x))) - b_in
-                scale = float(np.max(np.abs(b_in))) + 1e-300
+                # normwise backward error |Ax - b| / (|b| + |A| |x|): what a backward-stable solver keeps at rounding level also for an
+                # ill-conditioned matrix (a residual relative to |b| alone grows with the condition number)
+                try:
+                    rows = np.bincount(np.ravel(np.array(A.I)).astype(int), weights=np.abs(np.ravel(np.array(A.V, dtype=float))),
+                                       minlength=len(x))
+                    norm_a = float(np.max(rows)) if rows.size else 0.0
+                except Exception:
+                    norm_a = 0.0
+                scale = float(np.max(np.abs(b_in))) + norm_a * float(np.max(np.abs(x))) + 1e-300
                 e = float(np.max(np.abs(r))) / scale if scale > 1e-14 else 0.0
                 if e > rec.get('axb_err', 0.0):
                     rec['axb_err'] = e
